@@ -125,44 +125,78 @@ def joint_ref(a, s, q):
 
 
 # ---------------------------------------------------------------- comments and ignored objects
-@shape('d')
+@shape('d', note='comment-key-kept')
 def cm_key(a, b, k, v):
     return [N(a, **{T.ckey(k): v, 'x': N(b)})]
 
 
-@shape('d')
+@shape('d', note='comment-key-kept:object-value')
 def cm_obj(a, b, c, k):
     return [N(a, **{'x': N(b), T.ckey(k): N(c)})]
 
 
-@shape('d')
+@shape('d', note='ignored-object-kept:top-level')
 def ig_top(a, b, c):
     return [N(a), NI(b, True), N(c)]
 
 
-@shape('d', quick_codes=('0121', '0123', '0120', '0122', '0012', '0102', '0112'))
+@shape('d', note='ignored-object-kept:dict-value', quick_codes=('0121', '0123', '0120', '0122', '0012', '0102', '0112'))
 def ig_child(a, b, c, r):
     return [N(a, x=NI(b, True)), N(c, x=r)]
 
 
-@shape('d')
+@shape('d', note='ignored-object-kept:list')
 def ig_list(a, b, c):
     return [N(a, children=[NI(b, True), N(c)])]
 
 
-@shape('d')
+@shape('d', note='ignore-false-dropped')
 def ig_false(a, b):
     return [N(a), NI(b, False)]
 
 
-@shape('d')
+@shape('d', note='ignored-object-kept:truthy')
 def ig_truthy(a, b):
     return [N(a), NI(b, 1)]
 
 
-@shape('d', tier='thorough')
+@shape('d', tier='thorough', note='ignored-object-kept:nested')
 def ig_inner(a, b, c):
     return [N(a, x=N(b, children=[N(c, ignore=True, x='nowhere')]))]
+
+
+# consecutive ignored objects / an ignored object followed by an object that itself needs cleaning
+# (a remove_comments that deletes while iterating forward skips the element after each deletion)
+@shape('d', note='ignored-object-kept:consecutive')
+def ig_two(a, b, c):
+    return [NI(a, True), NI(b, True), N(c)]
+
+
+@shape('d', note='ignored-object-kept:consecutive')
+def ig_two_list(a, b, c):
+    return [N(a, children=[NI(b, True), NI(c, 1)])]
+
+
+@shape('d', note='ignored-object-kept:consecutive',
+       quick_codes=('0123', '0120', '0102', '0112', '0012', '0122', '0121'))
+def ig_three(a, b, c, d):
+    return [N(a), NI(b, True), NI(c, True), NI(d, True)]
+
+
+@shape('d', note='comment-key-kept:after-ignored')
+def ig_then_key(a, b, k, v):
+    return [NI(a, True), N(b, **{T.ckey(k): v})]
+
+
+@shape('d', note='comment-key-kept:after-ignored')
+def ig_then_key_list(a, b, c, k, v):
+    return [N(a, children=[NI(b, True), N(c, **{T.ckey(k): v})])]
+
+
+@shape('d', note='nested-ignored-kept:after-ignored',
+       quick_codes=('0123', '0120', '0102', '0112', '0012', '0122', '0121'))
+def ig_then_nested(a, b, c, d):
+    return [NI(a, True), N(b, x=NI(c, True), children=[NI(d, True)])]
 
 
 # ---------------------------------------------------------------- plates
